@@ -163,7 +163,34 @@ async fn trace(case: &ChaosCase, which: u8) -> (Vec<Obs>, Vec<String>) {
             .build()
     };
     let mut svc = if which == 1 {
-        let _first = layer.layer(inner.clone());
+        // the first service built by this layer serves some traffic of its own (through an inner
+        // service of its own) before the second one is built and observed
+        let other = Scripted::new(Log::new(), 1, |_, _, _| Step::ok(0));
+        let mut first = layer.layer(other);
+        for k in 0..(1 + case.requests.len() % 4) {
+            let _ = futures::future::poll_fn(|cx| first.poll_ready(cx)).await;
+            let fut = first.call(Req {
+                id: 9_000 + k as u32,
+                key: 1,
+                tag: 0xCA05_9000 + k as u64,
+            });
+            let tk = sim.spawn_call(fut, |r: Result<Resp, SErr>| match r {
+                Ok(resp) => Outcome::Ok {
+                    serial: resp.serial,
+                    req: resp.req,
+                },
+                Err(e) => Outcome::Inner {
+                    code: e.code,
+                    serial: e.serial,
+                },
+            });
+            sim.settle().await;
+            let mut guard = 0;
+            while sim.state(tk) == TaskState::Live && guard < 3_000 {
+                sim.tick().await;
+                guard += 1;
+            }
+        }
         layer.layer(inner.clone())
     } else {
         layer.layer(inner.clone())
@@ -214,7 +241,6 @@ async fn trace(case: &ChaosCase, which: u8) -> (Vec<Obs>, Vec<String>) {
         }
         sim.settle().await;
     }
-    let _ = t0;
     let snap = log.snapshot();
     let mut obs = vec![];
     for i in 0..n {
@@ -284,12 +310,12 @@ async fn trace(case: &ChaosCase, which: u8) -> (Vec<Obs>, Vec<String>) {
         }
         obs.push(Obs {
             injected_error,
-            delay: enters.first().map(|e| e.0 - at[i]),
+            delay: enters.first().map(|e| e.0 - t0 - at[i]),
             announced: snap.iter().find_map(|e| match e {
                 Ev::Note { kind: "latency_injected", a, b, .. } if *a == tk as i64 => Some(*b as u64),
                 _ => None,
             }),
-            resolved_after: resolve.as_ref().map(|r| r.0 - at[i]),
+            resolved_after: resolve.as_ref().map(|r| r.0 - t0 - at[i]),
             outcome: match &resolve {
                 Some((_, Outcome::Ok { .. })) => "ok".into(),
                 Some((_, Outcome::Inner { code, .. })) => format!("err{code}"),
